@@ -222,7 +222,18 @@ impl<K: Hash + Eq, V, FH: BuildHasher, RH: BuildHasher> SegmentedCache<K, V, FH,
     }
 
     /// `put_protected` will force to put an entry in protected LRU
-    pub fn put_protected(&mut self, k: K, v: V) -> PutResult<K, V> {
+    pub fn put_protected(&mut self, k: K, mut v: V) -> PutResult<K, V> {
+        // a key lives in at most one segment: if it is in the probationary
+        // segment, move that entry to the protected segment instead of adding a second one.
+        if let Some(mut ent) = self.probationary.remove_and_return_ent(&k) {
+            unsafe {
+                swap_value(&mut v, ent.as_mut());
+            }
+            if let Some(evicted_ent) = self.protected.put_or_evict_nonnull(ent) {
+                self.probationary.put_nonnull(evicted_ent);
+            }
+            return PutResult::Update(v);
+        }
         self.protected.put(k, v)
     }
 
